@@ -66,7 +66,50 @@ fn run_case(w: &mut Worker, i: u64) -> CaseOut {
     let newv = |old: u64| NonZeroU64::new(old + 1 + 0).unwrap();
     let exp = Utc.with_ymd_and_hms(2099, 6, 1, 12, 0, 0).unwrap();
     let (tgv, snv, tsv) = (newv(spec.tg_version), newv(spec.snap_version), newv(spec.ts_version));
-    let res: Result<(), String> = w.rt.block_on(async {
+    // one case in eight goes through the command line tool (`tuftool update`) instead of the library API
+    let cli = i % 8 == 5 && std::path::Path::new(crate::props::c20::TUFTOOL).exists();
+    let outdir = if cli { dir.join("cli-out/metadata") } else { outdir };
+    let res: Result<(), String> = if cli {
+        drop(repo);
+        out.h("via=tuftool-update");
+        // the source repository on disk (file:// URLs), key files, a directory with the targets to add
+        let srcdir = dir.join("src");
+        for (k, v) in &built.files {
+            let p = srcdir.join(k.trim_start_matches('/'));
+            std::fs::create_dir_all(p.parent().unwrap()).unwrap();
+            std::fs::write(p, v).unwrap();
+        }
+        let adddir = dir.join("add");
+        std::fs::create_dir_all(&adddir).unwrap();
+        for (n, c) in &added {
+            std::fs::write(adddir.join(n), c).unwrap();
+        }
+        let mut cmd = std::process::Command::new(crate::props::c20::TUFTOOL);
+        cmd.arg("update");
+        for k in 1..4 {
+            let kp = dir.join(format!("key-{k}"));
+            std::fs::write(&kp, key(k).private_file()).unwrap();
+            cmd.args(["--key", kp.to_str().unwrap()]);
+        }
+        let t = "2099-06-01T12:00:00Z";
+        cmd.args(["--root", root_path.to_str().unwrap()])
+            .args(["--metadata-url", &format!("file://{}/", srcdir.join("metadata").to_str().unwrap())])
+            .args(["--outdir", dir.join("cli-out").to_str().unwrap()])
+            .args(["--targets-version", &tgv.to_string(), "--targets-expires", t])
+            .args(["--snapshot-version", &snv.to_string(), "--snapshot-expires", t])
+            .args(["--timestamp-version", &tsv.to_string(), "--timestamp-expires", t]);
+        if !added.is_empty() {
+            cmd.args(["--add-targets", adddir.to_str().unwrap()]);
+        }
+        cmd.env("RUST_BACKTRACE", "0").env("RUST_LIB_BACKTRACE", "0");
+        match cmd.stdin(std::process::Stdio::null()).output() {
+            Err(e) => Err(format!("cannot run tuftool: {e}")),
+            Ok(o) if o.status.success() => Ok(()),
+            Ok(o) => Err(format!("tuftool update failed: {}", String::from_utf8_lossy(&o.stderr).chars().take(300).collect::<String>())),
+        }
+    } else {
+        out.h("via=library");
+        w.rt.block_on(async {
         let r = tokio::time::timeout(wd, async {
             let mut ed = RepositoryEditor::from_repo(&root_path, repo).await.map_err(|e| client::full_error(&e))?;
             ed.targets_version(tgv).map_err(|e| e.to_string())?;
@@ -87,7 +130,8 @@ fn run_case(w: &mut Worker, i: u64) -> CaseOut {
             Err(_) => Err("watchdog".into()),
             Ok(x) => x,
         }
-    });
+        })
+    };
     out.evals += 1;
     let mut diffs: Vec<String> = Vec::new();
     match &res {
@@ -226,6 +270,11 @@ fn run_case(w: &mut Worker, i: u64) -> CaseOut {
 pub fn run(cfg: &Cfg) -> i32 {
     let start = Instant::now();
     let _ = crate::keys::pool();
+    // the command line leg needs the tuftool binary built from /repo's working tree
+    if let Err(e) = crate::props::c20::build_tuftool() {
+        println!("BROKEN-HARNESS: {e}");
+        return 2;
+    }
     let n = cfg.tier.pick(1_200u64, 20_000);
     let budget = cfg.tier.pick(Duration::from_secs(400), Duration::from_secs(2400));
     let ev = par_run(cfg, n, budget, |w, i| Some(run_case(w, i)));
@@ -240,6 +289,8 @@ pub fn run(cfg: &Cfg) -> i32 {
         "consistent=true".into(),
         "consistent=false".into(),
         "delegation-depth=3".into(),
+        "via=library".into(),
+        "via=tuftool-update".into(),
     ];
     finish(
         cfg,
